@@ -197,7 +197,7 @@ def enumeration_users(repo: Repo, which):
                         break
                 if used:
                     break
-            if used is None and any(isinstance(n, ast.Attribute) and n.attr in ("_adj", "_succ", "adj", "succ") for b in bodies for n in ast.walk(b)):
+            if used is None and any(isinstance(n, ast.Attribute) and n.attr in ("_adj", "_succ", "adj", "succ", "adjacency") for b in bodies for n in ast.walk(b)):
                 continue        # walks the adjacency itself: nothing inherited from the enumeration
             if used is None:
                 raise AnalysisError("%s: the enumeration of the source's interactions was not found" % qual)
